@@ -160,6 +160,42 @@ def classify(res):
             out[(k, "module-docstring-only")] = None if e2 == "none" else unhx(e2[1])
             out[(k, "install")] = None if e3 == "none" else unhx(e3[1])
     out.update(classify_raises(res))
+    out.update(classify_alternate(res))
+    return out
+
+
+def alt_run_index(res, j):
+    """the run index (as sync_judge._steps counts) of the j-th run of the phase in which the kind named as truth alternates"""
+    return len(res["runs"]) + (1 if res.get("edit") is not None else 0) + j
+
+
+def classify_alternate(res):
+    """the runs that name another kind as truth: every recorded call is judged on its own, as the call of a repetition
+    (SyncSpec2.classify_target_r looks at the later call only) -> {(file key, "alt" | "alt-module-docstring-only" |
+    "alt-docstrings-only", run index): class or None}"""
+    scn = res["scn"]
+    keys, reqs = [], []
+    by_file = {f: (tk, k) for tk, k, f in J.files_of_kinds(res)}
+    for j, a in enumerate(res.get("alt") or []):
+        for c in a.get("calls") or []:
+            tk, k = by_file.get(c["file"].rsplit("/", 1)[-1], (None, None))
+            if tk is None:
+                continue
+            name = scn["names"][k]
+            o = obs2_of(c, name)
+            whole = bool(c["found"] and not c["cmp"] and c["replaced"])
+            reqs.append(dumps([Sym("sync_class_r"), "." in name, o, opt(o)]))
+            reqs.append(dumps([Sym("frame_class_r"), True, False, whole, "." in name, o, opt(o)]))
+            reqs.append(dumps([Sym("frame_class_r"), False, True, whole, "." in name, o, opt(o)]))
+            keys.append((tk, alt_run_index(res, j)))
+    out = {}
+    if reqs:
+        outs = run_model(reqs)
+        for idx, (tk, i) in enumerate(keys):
+            e, e2, e5 = (loads(outs[3 * idx + n]) for n in range(3))
+            out[(tk, "alt", i)] = None if e == "none" else unhx(e[1])
+            out[(tk, "alt-module-docstring-only", i)] = None if e2 == "none" else unhx(e2[1])
+            out[(tk, "alt-docstrings-only", i)] = None if e5 == "none" else unhx(e5[1])
     return out
 
 
@@ -170,12 +206,18 @@ def classify_raises(res):
     runs = [(i, calls) for i, calls in enumerate(res["calls"] or [])]
     if (res.get("edit") or {}).get("calls") is not None:
         runs.append(("edit", res["edit"]["calls"]))
+    for j, a in enumerate(res.get("alt") or []):
+        if a.get("calls") is not None:
+            runs.append((alt_run_index(res, j), a["calls"]))
     keys, reqs = [], []
     for i, calls in runs:
         last = calls[-1] if calls else None
         if last is None or not last.get("result") or last["result"][0] != "err":
             continue
         tk = next((k for k in scn["targets"] if last["file"].endswith("/" + res["paths"][k])), None)
+        if tk is None:
+            # a later run (another kind named as truth): the file that held the truth of the first run is a target too
+            tk = next((k for k, _, f in J.files_of_kinds(res) if last["file"].endswith("/" + f)), None)
         if tk is None:
             continue
         keys.append((i, tk))
@@ -207,6 +249,13 @@ def evaluate(rng, tier, judge, n_quick=150, n_thorough=1500, runs=3, cli_share=0
         r_via = krng.random()
         via = "cli" if r_via < cli_share else "main" if r_via < cli_share + main_share else "api"
         plans.append((via, L.gen_known_shape(krng, L.KNOWN_SHAPES[j % len(L.KNOWN_SHAPES)], via=via, runs=runs)))
+    # the history stratum (1 in 8 scenarios more, from a generator of its own): after the regular runs the KIND named as
+    # truth alternates for four or five runs while nobody edits a file; prose with characters special to some layer
+    hrng = random.Random(rng.random())
+    for j in range(max(6, n // 8)):
+        r_via = hrng.random()
+        via = "cli" if r_via < cli_share else "main" if r_via < cli_share + main_share else "api"
+        plans.append((via, L.gen_history_scenario(hrng, via=via, runs=runs)))
     for via, scn in plans:
         if via == "cli":
             # run through the command line for the judged behaviour, and once more through the API (same scenario,
@@ -228,11 +277,20 @@ def evaluate(rng, tier, judge, n_quick=150, n_thorough=1500, runs=3, cli_share=0
             hist["recorded-finding-shape:%s" % scn["known_shape"]] += 1
         hist["via:%s" % via] += 1
         hist["given:%d" % len(scn["given"])] += 1
+        if scn.get("alternate"):
+            hist["history:truth-kind-alternates:%d-more-runs:%s" % (len(scn["alternate"]), "judged" if J.history_settled(res) else
+                                                                   "not-settled-after-first-run")] += 1
+        if scn.get("prose_special"):
+            hist["prose-special:%s:%s" % (scn["prose_special"]["token"], scn["prose_special"]["where"])] += 1
         for k, t in scn["targets"].items():
             hist["target:%s:%s%s" % (k, t["pre"], ":method" if L.kind_of(k) == "function" and "." in scn["names"]["function"] else "")] += 1
-            for opt_key in ("nested", "forward_decl", "receiver", "style"):
+            for opt_key in ("nested", "forward_decl", "receiver", "style", "inner_same_named"):
                 if t.get(opt_key):
                     hist["target-shape:%s:%s" % (opt_key, t[opt_key])] += 1
+            if t["pre"] == "empty" and t.get("zero_text"):
+                hist["target-shape:zero-statements:%s" % ("comment-only" if "#" in t["zero_text"] else "blank-only")] += 1
+            if t.get("special_sur") and t["pre"] not in ("missing", "empty", "hardlink"):
+                hist["target-shape:sibling-docstrings-with-special-characters"] += 1
         second = scn["truth"] + "#2"
         if second in scn["targets"]:
             hist["second-file-of-truth-kind:%s:%s" % (via, "sorts-before-the-truth" if L.file_of(second, scn) < L.file_of(scn["truth"], scn)
@@ -259,6 +317,15 @@ def evaluate(rng, tier, judge, n_quick=150, n_thorough=1500, runs=3, cli_share=0
                 cls = c if c is not None and "raised" in ABSORBS.get(c, ()) else None
                 if tk is not None:
                     f = dict(f, what="%s (in the call for target %s)" % (f["what"], tk))
+            elif f.get("phase") == "alt":
+                # a run that names another kind as truth: judged on that run's own call for the file (the key of the file that
+                # held the first truth is its kind), a class standing only for the ways of failing listed in ABSORBS
+                i_run = f["facts"].get("run", 0)
+                if f["kind"] in ("module-docstring-only", "docstrings-only"):
+                    cls = classes.get((f["target"], "alt-" + f["kind"], i_run))
+                else:
+                    c = classes.get((f["target"], "alt", i_run))
+                    cls = c if c is not None and f["kind"] in ABSORBS.get(c, (f["kind"],)) else None
             elif f["kind"] in ("module-docstring-only", "docstrings-only") and (k, f["kind"]) in classes:
                 cls = classes[(k, f["kind"])]
             elif (k, "install") in classes:
